@@ -102,6 +102,16 @@ func (s *scn) applyMutate(st CStep) {
 		case 3:
 			tx.To = nil
 			note = "to-nil"
+			// no receiver at all, on every path that looks at the receiver: a transfer, a contract call for the WASM VM, a
+			// call of a built-in contract
+			switch st.B % 3 {
+			case 1:
+				tx.Payload = s.b.xvmInvoke(sender, s.actor(st.B).Addr, "start_verify", pb.Bytes([]byte{1, 2, 3, 4})).Payload
+				note = "to-nil-xvm-invoke"
+			case 2:
+				tx.Payload = invokePayload(pb.TransactionData_BVM, "Get", pb.String("k"))
+				note = "to-nil-bvm-invoke"
+			}
 		case 4:
 			tx.To = types.NewAddress(r.Bytes(20))
 			tx.Payload = invokePayload(pb.TransactionData_BVM, "Get", pb.String("k"))
